@@ -15,21 +15,58 @@ WS = "savefile::WithSchema"
 @rule("W10", ["C12"], floor=16, doc="in every `possible_recursion::<X>(|c| Y::schema(..))` the guarded type X is the type Y whose schema is "
       "computed (otherwise non-recursive types yield recursion markers)")
 def w10(facts, tier):
-    seen = {}
-    for f in facts.fns_of_crate("savefile"):
+    def guards_of(f):
+        """(call node, guard type, inner type) of every possible_recursion call written in f, in source order, with the local helper
+        calls interleaved as ('call', helper)"""
+        out = []
         for x in calls(f["body"]):
-            if not (callee(x) or "").endswith("WithSchemaContext::possible_recursion"):
-                continue
-            guard = x["targs"][0] if x.get("targs") else None
-            inner = None
-            for a in x["args"]:
-                cl = peel(a)
-                if cl.get("k") == "Closure":
-                    cf = facts.fns.get(cl["id"])
-                    if cf:
-                        tys = [y.get("self_ty") for y in calls(cf["body"]) if callee(y) == "savefile::WithSchema::schema"]
-                        inner = tys[0] if tys else None
-            owner = (f.get("impl") or {}).get("self_ty", f["id"])
+            c = callee(x) or ""
+            if c.endswith("WithSchemaContext::possible_recursion"):
+                guard = x["targs"][0] if x.get("targs") else None
+                inner = None
+                for a in x["args"]:
+                    cl = peel(a)
+                    if cl.get("k") == "Closure":
+                        cf = facts.fns.get(cl["id"])
+                        if cf:
+                            tys = [y.get("self_ty") for y in calls(cf["body"]) if callee(y) == "savefile::WithSchema::schema"]
+                            inner = tys[0] if tys else None
+                out.append(("guard", x, guard, inner, f))
+            else:
+                t = (x.get("res") or {}).get("fn") or x.get("fn")
+                h = facts.fns.get(t)
+                if h is not None and h["crate"] == "savefile" and not (h.get("impl") or {}).get("trait") and h.get("body") and h is not f \
+                        and any("WithSchemaContext" in (p.get("ty") or "") for p in h.get("params", [])):
+                    out.append(("call", h))
+        return out
+
+    def expand(f, depth=0, seen=()):
+        res = []
+        for it in guards_of(f):
+            if it[0] == "guard":
+                res.append(it)
+            elif depth < 4 and it[1]["id"] not in seen:
+                res.extend(expand(it[1], depth + 1, seen + (it[1]["id"],)))
+        return res
+
+    # obligations are keyed by the WithSchema impl that reaches the guard (its own, or one in a helper it calls): extracting or
+    # sharing a helper does not rename a finding
+    reached = set()
+    todo = []
+    for f in sorted(facts.fns_of_crate("savefile"), key=lambda g: g["id"]):
+        im = f.get("impl") or {}
+        if im.get("trait") == WS and f.get("name") == "schema":
+            items = expand(f)
+            for it in items:
+                reached.add(id(it[1]))
+            todo.append((im.get("self_ty", f["id"]), items))
+    for f in sorted(facts.fns_of_crate("savefile"), key=lambda g: g["id"]):
+        own = [it for it in guards_of(f) if it[0] == "guard" and id(it[1]) not in reached]
+        if own:
+            todo.append(((f.get("impl") or {}).get("self_ty", f["id"]), own))
+    seen = {}
+    for owner, items in todo:
+        for _, x, guard, inner, f in items:
             n = seen.get(owner, 0) + 1
             seen[owner] = n
             key = f"{owner}#{n}"
@@ -39,7 +76,7 @@ def w10(facts, tier):
                 yield ob(["C12"], "W10", key, "pass", where(f, x), f"recursion guard for {guard} wraps the schema of {inner}")
             else:
                 yield ob(["C12"], "W10", key, "violation", where(f, x),
-                         f"{f['id']}: the schema of `{inner}` is computed under the recursion guard of `{guard}`: a map whose value type "
+                         f"{f['id']} (reached from the schema of {owner}): the schema of `{inner}` is computed under the recursion guard of `{guard}`: a map whose value type "
                          f"contains its key type (e.g. HashMap<String, Vec<String>>) is reported as recursive although it is not")
 
 
@@ -234,7 +271,8 @@ def w10b(facts, tier):
             yield ob(["C03", "C12"], "W10b", ty, "violation", w, f"{ty}: WithSchema impl frozen in the spec is gone")
         elif ty not in spec:
             yield ob(["C03", "C12"], "W10b", ty, "undecided", w, f"{ty}: WithSchema impl not in the frozen spec (new type): guard levels {cur[ty]} not judged")
-        elif spec[ty] != cur[ty]:
+        elif [d for d in spec[ty] if d > 0] != [d for d in cur[ty] if d > 0]:
+            # (inner schemas asked for outside any guard add no level: forwarding to another type's schema is not a format change)
             yield ob(["C03", "C12"], "W10b", ty, "violation", w,
                      f"{ty}: inner schemas are computed under guard levels {cur[ty]}, the format has {spec[ty]}: Schema::Recursion depths of recursive "
                      f"types containing this type change, so a schema stored by another build of the library (an older file) no longer "
